@@ -230,7 +230,19 @@ func runC10(c *Ctx) {
 				}
 			}
 		}
-		L.Check(okCnt, "R-C10-FREELIST", "Tree.newNode#count", "NumPagesFree-- exactly when a page is popped", "NumPagesFree is not decremented exactly on the pop side", fn.Pos())
+		// ... decided on the head as it was on entry: no assignment to t.freePage may precede the decrement
+		// (a test of the advanced head misses the pop of the last free page), and every path that pops decrements
+		for _, st := range fieldStoresIn(fn, "TreeStats", "NumPagesFree") {
+			for _, hs := range fieldStoresIn(fn, "Tree", "freePage") {
+				if r, _ := reach(after(hs), isInstr(st), nil, nil); r != nil {
+					okCnt = false
+				}
+			}
+			if r, _ := reach(entryPos(fn), isReturn, isInstr(st), cutSet(edgesWhere(fn, tb, "lt(c[0],fld[freePage](p[0]))", nil, false))); r != nil {
+				okCnt = false
+			}
+		}
+		L.Check(okCnt, "R-C10-FREELIST", "Tree.newNode#count", "NumPagesFree-- exactly when a page is popped", "NumPagesFree is not decremented exactly on the pop side (tested on the free-list head as it was on entry)", fn.Pos())
 		// every returned page is zeroed and stamped with its id
 		b1, _ := mustPass(entryPos(fn), isInstr(zero), nil)
 		b2, _ := mustPass(entryPos(fn), isInstr(stamp), nil)
